@@ -212,10 +212,10 @@ def templates(depth=3):
 
     out = []
     for d in range(1, depth + 1):
-        for chain in itertools.product(["scan", "vmap", "cond", "gen"], repeat=d):
+        for chain in itertools.product(["scan", "vmap", "vmapp", "cond", "gen"], repeat=d):
             node = ["site", "normal", []]
             for k in reversed(chain):
-                node = {"scan": lambda x: ["scan", 3, x], "vmap": lambda x: ["vmap", 3, x], "cond": lambda x: ["cond", x, ["seq", [x, ["site", "uniform", []]]]],
+                node = {"scan": lambda x: ["scan", 3, x], "vmap": lambda x: ["vmap", 3, x], "vmapp": lambda x: ["vmap", 3, x, "p"], "cond": lambda x: ["cond", x, ["seq", [x, ["site", "uniform", []]]]],
                         "gen": lambda x: ["gen", x]}[k](node)
             out.append(node)
     return out
